@@ -14,6 +14,13 @@ The code variants (`Ansi.Cfg`): `intRaises` (F10), `flushRaw` (F20) — repaired
 `resetDropsLink` (F28), `offSingle` (F29) are `true` for rich 9.10.0 as found; the full-strength theorems are
 proved for the repaired variant and the `old_…` theorems show by evaluation that the variant as found violates
 them.  The round trip `decode_encode` holds for every variant (the encoder never writes what F27-F29 are about).
+
+Outside the statement (observed by the harness, not a theorem, not a check): `Live.stop` / `Progress.stop` do not
+flush the two proxies.  A partial line pending at `stop()` is not a *line written* (no newline yet) and no *flush*
+was asked for, which are the two things the property speaks of; nor is it lost — `io.IOBase.close` calls `flush`,
+so it is printed when the proxy object is collected (`proxy_flush_empties` covers that flush).  Where it lands
+(after the final frame, or later) is a matter of the display, not of this property; `proxy_two_streams` and
+`proxy_lines` say what is pending (`pending h`) and that it stays in the stream's own buffer until then.
 -/
 namespace RichModel.C19
 open RichModel RichModel.Ansi RichModel.Style
